@@ -1,5 +1,6 @@
 (* modelrun: runs the extracted Coq models on the same case files the Rust
    harness runs, printing the same canonical observation lines. *)
+module BigZ = Z
 open Model
 
 (* ---------- conversions ---------- *)
@@ -13,24 +14,26 @@ let n_of_int (i : int) : n = if i = 0 then N0 else Npos (pos_of_int i)
 let rec int_of_pos (p : positive) : int =
   match p with XH -> 1 | XO q -> 2 * int_of_pos q | XI q -> 2 * int_of_pos q + 1
 
+let rec nat_of_int (i : int) : nat = if i <= 0 then O else S (nat_of_int (i - 1))
+let rec int_of_nat (x : nat) : int = match x with O -> 0 | S y -> 1 + int_of_nat y
 let int_of_n (x : n) : int = match x with N0 -> 0 | Npos p -> int_of_pos p
 
 (* decimal string -> N without overflow (u64/u128 sized values) *)
 let n_of_dec (s : string) : n =
   (* positive arithmetic through repeated doubling/adding on a bit list *)
-  let z = Z.of_string s in
-  let rec go (z : Z.t) : positive =
-    if Z.equal z Z.one then XH
-    else if Z.is_even z then XO (go (Z.shift_right z 1))
-    else XI (go (Z.shift_right z 1)) in
-  if Z.sign z = 0 then N0 else Npos (go z)
+  let z = BigZ.of_string s in
+  let rec go (z : BigZ.t) : positive =
+    if BigZ.equal z BigZ.one then XH
+    else if BigZ.is_even z then XO (go (BigZ.shift_right z 1))
+    else XI (go (BigZ.shift_right z 1)) in
+  if BigZ.sign z = 0 then N0 else Npos (go z)
 
-let rec z_of_pos (p : positive) : Z.t =
-  match p with XH -> Z.one | XO q -> Z.shift_left (z_of_pos q) 1
-             | XI q -> Z.succ (Z.shift_left (z_of_pos q) 1)
-let z_of_n (x : n) : Z.t = match x with N0 -> Z.zero | Npos p -> z_of_pos p
-let cmp_n a b = Z.compare (z_of_n a) (z_of_n b)
-let dec_of_n (x : n) : string = match x with N0 -> "0" | Npos p -> Z.to_string (z_of_pos p)
+let rec z_of_pos (p : positive) : BigZ.t =
+  match p with XH -> BigZ.one | XO q -> BigZ.shift_left (z_of_pos q) 1
+             | XI q -> BigZ.succ (BigZ.shift_left (z_of_pos q) 1)
+let z_of_n (x : n) : BigZ.t = match x with N0 -> BigZ.zero | Npos p -> z_of_pos p
+let cmp_n a b = BigZ.compare (z_of_n a) (z_of_n b)
+let dec_of_n (x : n) : string = match x with N0 -> "0" | Npos p -> BigZ.to_string (z_of_pos p)
 
 let cl_of_string (s : string) : char list = List.init (String.length s) (String.get s)
 let string_of_cl (l : char list) : string =
@@ -42,12 +45,12 @@ let unhex (tok : string) : string =
   String.init n (fun i -> Char.chr (int_of_string ("0x" ^ String.sub tok (1 + 2 * i) 2)))
 
 let esc (s : string) : string =
-  if s = "" then "%_" else begin
+  if s = "" then "{}" else begin
     let b = Buffer.create 16 in
     String.iter (fun c ->
       let k = Char.code c in
-      if k > 0x20 && k < 0x7f && c <> '%' then Buffer.add_char b c
-      else Buffer.add_string b (Printf.sprintf "%%%02X" k)) s;
+      if k > 0x20 && k < 0x7f && c <> '{' && c <> '}' then Buffer.add_char b c
+      else Buffer.add_string b (Printf.sprintf "{%02X}" k)) s;
     Buffer.contents b end
 
 (* ---------- case files ---------- *)
@@ -108,7 +111,134 @@ let run_pending (path : string) =
     ) c.ops;
     print_string "E\n") (read_cases path)
 
+(* ---------- C12: oplog ---------- *)
+let files_str (l : olog) : string =
+  let sz f = dec_of_n (file_bytes f) in
+  Printf.sprintf "files [%s] %s" (String.concat "," (List.map sz l.l_rotated)) (sz l.l_current)
+
+let hit_str ((db, key), (r : oprec)) =
+  Printf.sprintf "%s_%s:%s:%s" (dec_of_n db) (dec_of_n key) (dec_of_n r.r_time) (dec_of_n r.r_op)
+
+let sort_hits l =
+  List.sort (fun ((d1, k1), _) ((d2, k2), _) -> let c = cmp_n d1 d2 in if c <> 0 then c else cmp_n k1 k2) l
+
+let run_oplog (path : string) =
+  List.iter (fun c ->
+    Printf.printf "C %s\n" c.id;
+    let single = n_of_dec (List.hd c.header) in
+    let l = ref { l_rotated = []; l_current = [] } in
+    List.iter (fun op ->
+      let line = match op with
+        | ["w"; t; k; d; o] ->
+          let r = { r_time = n_of_dec t; r_key = n_of_dec k; r_db = n_of_dec d; r_op = n_of_dec o } in
+          let ok = append_ok single !l r in
+          l := oplog_append single !l r;
+          if ok then "w ok " ^ t else "w err Could{20}not{20}write{20}to{20}the{20}op{20}log{20}file"
+        | ["q"; since] ->
+          let since = n_of_dec since in
+          (match query_all !l.l_rotated !l.l_current since with
+           | None -> "PANIC"
+           | Some m ->
+             let v = List.map (fun (k, h) -> hit_str (k, h.h_rec)) (sort_hits m) in
+             (* the specification: linear scan over the whole retained history *)
+             let recs = all_records !l.l_rotated !l.l_current in
+             let keys = List.sort_uniq compare (List.map (fun r -> (r.r_db, r.r_key)) recs) in
+             let sp = List.filter_map (fun k -> match spec_last recs since k with
+                 | Some r -> Some (k, r) | None -> None) keys in
+             let sv = List.map hit_str (sort_hits sp) in
+             Printf.printf "#spec %s sorted=%d\n" (if sv = [] then "-" else String.concat "," sv)
+               (if sorted_times recs then 1 else 0);
+             "q " ^ (if v = [] then "-" else String.concat "," v))
+        | ["last"] -> "last " ^ dec_of_n (last_op_time !l.l_current)
+        | ["size"] ->
+          let b = List.fold_left (fun a f -> BigZ.add a (z_of_n (file_bytes f))) BigZ.zero (!l.l_current :: !l.l_rotated) in
+          Printf.sprintf "size %s %s" (BigZ.to_string b) (BigZ.to_string (BigZ.div b (BigZ.of_int 25)))
+        | ["declutter"] -> l := declutter !l; "declutter"
+        | ["reopen"] -> l := reopen single !l; "reopen"
+        | _ -> failwith "bad oplog op" in
+      Printf.printf "%s | %s\n" line (files_str !l)) c.ops;
+    print_string "E\n") (read_cases path)
+
+(* ---------- single node ---------- *)
+let z_str (z : z) : string = string_of_cl (z_to_str z)
+let sesc (l : char list) : string = esc (string_of_cl l)
+let role_letter = function Primary -> "P" | Secondary -> "S" | StartingUp -> "U"
+let role_name = function Primary -> "Primary" | Secondary -> "Secoundary" | StartingUp -> "StartingUp"
+let role_of_tok = function "P" -> Primary | "S" -> Secondary | _ -> StartingUp
+let clock0 = n_of_dec "1000000000000000000"
+
+let resp_str (r : resp) : string = match r with
+  | RValue (k, v, ver) -> Printf.sprintf "Value %s %s %s" (sesc k) (sesc v) (z_str ver)
+  | ROk -> "Ok"
+  | RSet (k, v) -> Printf.sprintf "Set %s %s" (sesc k) (sesc v)
+  | RError m -> "Error " ^ sesc m
+  | RVersionError (k, o, v, _, _, _) -> Printf.sprintf "VersionError %s %s %s" (sesc k) (z_str o) (z_str v)
+  | RPanic -> "PANIC"
+
+let state_letter = function VOk -> "O" | VDeleted -> "D" | VUpdated -> "U" | VNew -> "N"
+
+let node_inboxes (n : node ref) : string =
+  let parts = ref [] in
+  List.iteri (fun i s ->
+    if s.s_inbox <> [] then begin
+      parts := Printf.sprintf "%d:[%s]" i (String.concat "|" (List.map sesc s.s_inbox)) :: !parts
+    end) !n.n_sess;
+  let nn = List.length !n.n_sess in
+  for i = 0 to nn - 1 do n := fst (drain !n (nat_of_int i)) done;
+  if !parts = [] then "-" else String.concat ";" (List.rev !parts)
+
+let node_queues (n : node ref) : string =
+  let r = String.concat "|" (List.map sesc !n.n_repl) and s = String.concat "|" (List.map sesc !n.n_sup) in
+  n := n_set_sup (n_set_repl !n []) [];
+  Printf.sprintf "repl=[%s] sup=[%s]" r s
+
+let node_dump (with_addr : bool) (n : node) : string =
+  let b = Buffer.create 256 in
+  Buffer.add_string b ("role=" ^ role_letter n.n_role);
+  Buffer.add_string b (Printf.sprintf " snap=[%s]"
+    (String.concat "," (List.map (fun (nm, r) -> sesc nm ^ ":" ^ (if r then "true" else "false")) n.n_snap)));
+  List.iteri (fun i s ->
+    let o = function Some x -> sesc x | None -> "-" in
+    let m = match s.s_member with Some (nm, r) -> sesc nm ^ "/" ^ role_name r | None -> "-" in
+    Buffer.add_string b (Printf.sprintf " s%d=%s/%s/%s/%s" i (if s.s_auth then "A" else "a") (o s.s_db) (o s.s_user) m))
+    n.n_sess;
+  let dbs = List.sort (fun (a, _) (b, _) -> compare a b) (List.map (fun (nm, d) -> (string_of_cl nm, d)) n.n_dbs) in
+  List.iter (fun (nm, d) ->
+    Buffer.add_string b (Printf.sprintf " db=%s id=%s strat=%s conn=%s keys=[" (esc nm) (dec_of_n d.d_id)
+      (string_of_cl (strat_to_str d.d_strat)) (z_str d.d_conn));
+    let ks = List.sort (fun (a, _) (b, _) -> compare a b) (List.map (fun (k, v) -> (string_of_cl k, v)) d.d_map) in
+    Buffer.add_string b (String.concat "," (List.map (fun (k, v) ->
+      let base = Printf.sprintf "%s=%s@%s/%s/%s" (esc k) (sesc v.v_val) (z_str v.v_ver) (state_letter v.v_st) (dec_of_n v.v_opp) in
+      if with_addr then Printf.sprintf "%s/%s/%s" base (dec_of_n v.v_vaddr) (dec_of_n v.v_kaddr) else base) ks));
+    Buffer.add_string b "] watch=[";
+    let ws = List.sort (fun (a, _) (b, _) -> compare a b) (List.map (fun (k, l) -> (string_of_cl k, l)) d.d_watch) in
+    Buffer.add_string b (String.concat "," (List.map (fun (k, l) ->
+      esc k ^ ":" ^ String.concat "." (List.map (fun c -> string_of_int (int_of_nat c)) l)) ws));
+    Buffer.add_string b "]") dbs;
+  Buffer.contents b
+
+let run_node (path : string) =
+  List.iter (fun c ->
+    Printf.printf "C %s\n" c.id;
+    let role = role_of_tok (match c.header with r :: _ -> r | [] -> "P") in
+    let n = ref (init_node (cl_of_string "nun") (cl_of_string "pwd") (cl_of_string "n0:3014") (n_of_int 1000) role clock0) in
+    List.iter (fun op ->
+      let res = match op with
+        | ["conn"] -> let (n', id) = connect !n in n := n'; Printf.sprintf "Conn %d" (int_of_nat id)
+        | ["cmd"; sid; line] ->
+          let (n', r) = step !n (nat_of_int (int_of_string sid)) (cl_of_string (unhex line)) in
+          n := n'; resp_str r
+        | ["disc"; sid] -> n := disconnect !n (nat_of_int (int_of_string sid)); "Left"
+        | _ -> failwith "bad node op" in
+      let inb = node_inboxes n in
+      let q = node_queues n in
+      Printf.printf "%s | %s | %s\n" res inb q;
+      Printf.printf "D %s\n" (node_dump false !n)) c.ops;
+    print_string "E\n") (read_cases path)
+
 let () =
   match Array.to_list Sys.argv with
+  | [_; "node"; path] -> run_node path
+  | [_; "oplog"; path] -> run_oplog path
   | [_; "pending"; path] -> run_pending path
   | _ -> prerr_endline "usage: modelrun <driver> <casefile>"; exit 2
